@@ -11,7 +11,10 @@ Zipd(F)  == SelectSeq(F, LAMBDA f : IsRot(f) /\ f.z)
 K(cc) == IF cc.k < 0 THEN 0 ELSE cc.k
 M(cc) == IF cc.m < 0 THEN 0 ELSE cc.m
 KEff(cc) == IF cc.direct /\ K(cc) = 0 THEN 1 ELSE K(cc)
-Quiescent(e, cc) == (~cc.bg /\ cc.mode # "async") \/ (e.ev \in {"Stop", "Shutdown"} /\ Ok(e))
+\* (the replays of FlwCleanQF.tla inject failures into the cleanup thread: after a cleanup that failed last the limits need
+\* not hold - C19's business; their final events are marked and not judged here)
+Quiescent(e, cc) == /\ (~cc.bg /\ cc.mode # "async") \/ (e.ev \in {"Stop", "Shutdown"} /\ Ok(e))
+                    /\ ~("q" \in DOMAIN e /\ e.q = "cleanfail")
 
 Check ==
     LET e == E
